@@ -121,6 +121,25 @@ def impl(case):
         contents = _contents()
         root = os.path.join(work, "Compose-1.0-[Server]-20240101.0" if case.get("legacy_name") or not case["slash"] else "Compose-1.0-20240101.0")
         os.makedirs(root)
+        if len(case["layouts"]) % 2 == (1 if case["slash"] else 0):
+            # the directory had another life before: a complete compose/ layout with the current names was opened and read at this
+            # very path earlier in the process, then the tree was removed and laid out anew (nothing may be remembered)
+            md = os.path.join(root, "compose", "metadata")
+            os.makedirs(md)
+            for fn, key in PATTERNS["all-current"].items():
+                with open(os.path.join(md, fn), "w", encoding="utf-8") as f:
+                    f.write(contents[key])
+            try:
+                c0 = PC.Compose(root + ("/" if case["slash"] else ""))
+                for acc in ["info", "images", "rpms", "modules"]:
+                    try:
+                        getattr(c0, acc)
+                    except Exception:
+                        pass
+            except Exception:
+                pass
+            shutil.rmtree(root)
+            os.makedirs(root)
         sub = {"direct": "", "compose": "compose", "legacy": case.get("legacy_name", "1.0")}
         for layout, pat in case["layouts"].items():
             md = os.path.join(root, sub[layout], "metadata")
